@@ -212,7 +212,92 @@ def check_C01(chk, tier):
     check_gssv(chk, ["C01."], tier, "C01")
 
 
-REGISTRY = {"C01": check_C01, "C02": check_C02, "C03": check_C03, "C04": check_C04}
+# ------------------------------------------------------------------------------------------------ expert driver (C05, C06, parts of C12/C13/C08)
+def xcase(n, pat, storage=0, colperm=0, permidx=0, tune="t122", umode=0, symcols=-1, nrhs=1, ldbx=0, hist=1, trans=1, equil=0, refine=0, cond=0, growth=0, lworkmode=0, ldxx=None):
+    t = T[tune] if isinstance(tune, str) else tune
+    return (n, hex(pat), storage, colperm, permidx) + tuple(t) + (umode, symcols, nrhs, ldbx, hist, trans, equil, refine, cond, growth, lworkmode, ldbx if ldxx is None else ldxx)
+
+
+def gssvx_cases(tier, prec="d", purpose="C05"):
+    cs = []
+    cplx = prec in "zc"; q = tier == "quick"
+    tri = (0b1011, 0b1101, 0b1001)   # upper, lower, diagonal 2x2 (bit j*2+i)
+    if purpose == "C05":
+        for st in (0, 1):
+            for tr in (1, 2, 3):
+                for eq in (0, 1):
+                    cs.append(xcase(1, 1, storage=st, trans=tr, equil=eq, refine=0 if cplx else 2 * eq, cond=0 if cplx else eq, growth=eq))
+                    if cplx and q:
+                        cs.append(xcase(2, 0b1101, storage=st, trans=tr, equil=eq, symcols=2))
+                        cs.append(xcase(2, 15, storage=st, trans=tr, equil=eq, symcols=0, nrhs=2, ldbx=1, ldxx=2, growth=1))
+                        continue
+                    for pat in (15,) + tri:
+                        if eq == 0: cs.append(xcase(2, pat, storage=st, trans=tr, umode=0 if cplx else 1))
+                        else:
+                            for sc in (1, 2): cs.append(xcase(2, pat, storage=st, trans=tr, equil=1, symcols=sc))
+                    if eq and not cplx: cs.append(xcase(2, 0b1001, storage=st, trans=tr, equil=1))                      # diagonal, fully symbolic: all four outcomes N/R/C/B
+                    cs.append(xcase(2, 15, storage=st, trans=tr, equil=eq, symcols=0, nrhs=2, ldbx=1, ldxx=2, refine=0, cond=1, growth=1))
+                    if st == 0 and tr < 3: cs.append(xcase(2, 15, storage=st, trans=tr, equil=eq, symcols=0, nrhs=1, refine=2))
+                    cs.append(xcase(3, 511, storage=st, trans=tr, equil=eq, symcols=0, nrhs=2, ldbx=0, ldxx=1, refine=0, cond=1, growth=1, tune="t212"))
+        if not cplx:
+            for pat in (511, C.band(3, 1, 1), C.arrow(3)):
+                for st, tr in ((0, 1), (0, 2), (1, 1), (1, 3)): cs.append(xcase(3, pat, storage=st, trans=tr, tune="t122" if st else "t212"))
+                if pat == C.band(3, 1, 1): cs.append(xcase(3, pat, equil=1, symcols=4, trans=2)); cs.append(xcase(3, pat, equil=1, symcols=1, storage=1))
+            for cp in (1, 2, 3): cs.append(xcase(3, C.band(3, 1, 1), colperm=cp, trans=2))
+            cs.append(xcase(2, 15, cond=1, symcols=2)); cs.append(xcase(2, 15, growth=1)); cs.append(xcase(2, 0b1101, growth=1, equil=1, symcols=1, storage=1, trans=2))
+            for n_, pat in ((5, C.dense(5, 5)), (6, C.band(6, 2, 2))):
+                for st in (0, 1):
+                    for tr in (1, 2): cs.append(xcase(n_, pat, storage=st, trans=tr, equil=1, symcols=0, nrhs=2, ldbx=1, ldxx=0, refine=0, cond=1, growth=1, tune="tn1n"))
+        if not q:
+            for pat in C.all_patterns(2, 2):
+                for st in (0, 1):
+                    for tr in (1, 2, 3): cs.append(xcase(2, pat, storage=st, trans=tr, equil=1)); cs.append(xcase(2, pat, storage=st, trans=tr, cond=1, growth=1)); cs.append(xcase(2, pat, storage=st, trans=tr, refine=2, symcols=2))
+            for pat in C.full_diag_plus(3, 3):
+                for st, tr in ((0, 1), (0, 2), (1, 1), (1, 3)): cs.append(xcase(3, pat, storage=st, trans=tr)); cs.append(xcase(3, pat, storage=st, trans=tr, equil=1, symcols=4))
+    elif purpose == "C06":
+        if cplx and q:
+            for h, tr in ((14, 13), (13, 12), (12, 21)): cs.append(xcase(2, 0b1101, hist=h, trans=tr, symcols=2)); cs.append(xcase(2, 15, hist=h, trans=tr, symcols=0, nrhs=2, ldbx=1))
+            return list(dict.fromkeys(cs))
+        hs2 = (12, 13, 14) if q else (12, 13, 14, 11); hs3 = (124, 134) if q else (124, 134, 123, 132, 144)
+        for h in hs2 + hs3:
+            for pat in (15, 0b1101):
+                cs.append(xcase(2, pat, hist=h, trans=121 if h >= 100 else 12, umode=0 if cplx else 1, symcols=-1 if h < 100 and not cplx else 2))
+                if pat == 0b1101 or not q: cs.append(xcase(2, pat, hist=h, trans=213 if h >= 100 else 21, storage=1, equil=1, symcols=2, tune="t1nn_f1"))
+            cs.append(xcase(3, 511, hist=h, trans=12, symcols=4, tune="t1nn_f1", nrhs=2, ldbx=1))
+            cs.append(xcase(3, C.band(3, 1, 1), hist=h, trans=21, symcols=-1 if h in (14,) and not cplx else 4, tune="t122", colperm=2))
+        if not cplx:
+            cs.append(xcase(2, 15, hist=13, umode=2)); cs.append(xcase(3, 511, hist=13, symcols=6, tune="t212"))
+            for n_, pat in ((5, C.dense(5, 5)), (6, C.band(6, 2, 2))):
+                for h in (134, 124, 1234): cs.append(xcase(n_, pat, hist=h, trans=1213, symcols=1 << (n_ - 1), tune="t1nn_f1", equil=0, refine=0))
+        if not q:
+            for h in hs2 + hs3 + (1234, 1324, 1334, 1243):
+                for pat in C.all_patterns(2, 2): cs.append(xcase(2, pat, hist=h, trans=1231, symcols=-1 if h < 100 else 2, equil=(pat >> 1) & 1))
+                for pat in C.full_diag_plus(3, 2): cs.append(xcase(3, pat, hist=h, trans=2131, symcols=4, tune="t1nn_f1"))
+    return list(dict.fromkeys(cs))
+
+
+GSSVX_BOUNDS = "n <= 3 symbolic (fully or one/two symbolic columns with generic concrete rest), concrete-A/symbolic-B reach cases n <= 6; nrhs <= 2; ldb/ldx <= n+2; Trans N/T/C; Equil on/off; NC/NR; histories of <= 3 (quick) / 4 (thorough) calls"
+
+
+def check_gssvx(chk, prefixes, tier, purpose):
+    for prec in precs(tier):
+        cs = gssvx_cases(tier, prec, purpose)
+        run_phase(chk, "gssvx/" + prec, H + "h_gssvx.c", cs, prefixes, prec=prec, budget_s=220 if tier == "quick" else 3000, bounds=GSSVX_BOUNDS,
+                  qtimeout_ms=(3000 if prec in "zc" else 8000) if tier == "quick" else 60000, env=CPLX_ENV if prec in "zc" else None,
+                  key_extra=lambda c: {"storage": str(c[2]), "trans": str(c[16]), "hist": str(c[15])})
+
+
+def check_C05(chk, tier):
+    chk.assumptions += COMMON_ASSUME + ["with Equil=YES inputs additionally satisfy x == 0 or |x| >= min subnormal (so that the safe-range clamps are exercised by representable values only)"]
+    check_gssvx(chk, ["C05."], tier, "C05")
+
+
+def check_C06(chk, tier):
+    chk.assumptions += COMMON_ASSUME + ["every refactor step gets fresh symbolic values on the same pattern, so abandoning remembered pivots is a feasible branch"]
+    check_gssvx(chk, ["C06."], tier, "C06")
+
+
+REGISTRY = {"C05": check_C05, "C06": check_C06, "C01": check_C01, "C02": check_C02, "C03": check_C03, "C04": check_C04}
 
 
 def run(pid, tier):
